@@ -345,11 +345,11 @@ mod arena {
     }
 
     data_arena!(TY_ARENA, TY_NEXT, ty, TyData<VI>, 64);
-    data_arena!(CONST_ARENA, CONST_NEXT, konst, ConstData<VI>, 8);
-    data_arena!(LT_ARENA, LT_NEXT, lifetime, LifetimeData<VI>, 32);
+    data_arena!(CONST_ARENA, CONST_NEXT, konst, ConstData<VI>, 24);
+    data_arena!(LT_ARENA, LT_NEXT, lifetime, LifetimeData<VI>, 48);
     data_arena!(GA_ARENA, GA_NEXT, generic_arg, GenericArgData<VI>, 64);
-    data_arena!(GOAL_ARENA, GOAL_NEXT, goal, GoalData<VI>, 12);
-    data_arena!(PC_ARENA, PC_NEXT, program_clause, ProgramClauseData<VI>, 8);
+    data_arena!(GOAL_ARENA, GOAL_NEXT, goal, GoalData<VI>, 40);
+    data_arena!(PC_ARENA, PC_NEXT, program_clause, ProgramClauseData<VI>, 12);
     data_arena!(VKH_ARENA, VKH_NEXT, vk_hdr, Hdr<VariableKind<VI>>, 24);
     data_arena!(QWCH_ARENA, QWCH_NEXT, qwc_hdr, Hdr<QuantifiedWhereClause<VI>>, 12);
 
@@ -399,7 +399,7 @@ mod arena {
     }
 
     list_arena!(SUBST_ARENA, SUBST_NEXT, substitution, GenericArg<VI>, 64);
-    list_arena!(GOALS_ARENA, GOALS_NEXT, goals, Goal<VI>, 16);
+    list_arena!(GOALS_ARENA, GOALS_NEXT, goals, Goal<VI>, 32);
     list_arena!(PCS_ARENA, PCS_NEXT, program_clauses, ProgramClause<VI>, 16);
     list_arena!(QWC_ARENA, QWC_NEXT, qwcs, QuantifiedWhereClause<VI>, 12);
     list_arena!(VK_ARENA, VK_NEXT, variable_kinds, VariableKind<VI>, 32);
